@@ -205,7 +205,7 @@ Proof. reflexivity. Qed.
 Definition dec_sig (tbs : list (option val)) (sg : option val) : option (list (option val)) :=
   let q := nth_o (fields_of sg) in
   g4 <~ tl_get tbs 0 (q 0%nat) ;; g12 <~ tl_get tbs 1 (q 8%nat) ;; g19 <~ tl_get tbs 2 (q 15%nat) ;;
-  Some [g4; q 1%nat; q 2%nat; q 3%nat; q 4%nat; q 5%nat; q 6%nat; q 7%nat; g12; q 9%nat; q 10%nat;
+  Some [g4; q 1%nat; q 2%nat; q 3%nat; q 4%nat; q 5%nat; q 6%nat; q 7%nat; g12; q 9%nat; narrow16 (q 10%nat);
         q 11%nat; q 12%nat; q 13%nat; q 14%nat; g19; q 16%nat].
 Definition dec_rpd (tbs : list (option val)) (o : option val) : option (list (option val)) :=
   let rp := nth_o (fields_of o) in g26 <~ tl_get tbs 2 (rp 0%nat) ;; Some [g26; rp 1%nat].
@@ -237,9 +237,13 @@ Qed.
 Definition sig_exp (bp : bparams) (g : nat -> option val) : list (option val) :=
   [sigb bp 0 (g 4%nat); sigb bp 1 (g 5%nat); sigb bp 2 (g 6%nat); sigb bp 3 (g 7%nat); sigb bp 4 (g 8%nat);
    sigb bp 5 (g 9%nat); sigb bp 6 (g 10%nat); sigb bp 7 (g 11%nat); sigb bp 8 (g 12%nat); sigb bp 9 (g 13%nat);
-   sigb bp 10 (g 14%nat); sigb bp 11 (g 15%nat); sigb bp 12 (g 16%nat); sigb bp 13 (g 17%nat); sigb bp 14 (g 18%nat);
+   narrow16 (sigb bp 10 (g 14%nat)); sigb bp 11 (g 15%nat); sigb bp 12 (g 16%nat); sigb bp 13 (g 17%nat); sigb bp 14 (g 18%nat);
    sigb bp 15 (g 19%nat); sigb bp 16 (g 20%nat)].
 
+Lemma is_some_narrow16 o : is_some (narrow16 o) = is_some o.
+Proof. destruct o as [[n| | | | |]|]; reflexivity. Qed.
+Lemma narrow16_none : narrow16 None = None.
+Proof. reflexivity. Qed.
 Lemma is_some_eq_none {A B} (a : option A) (b : option B) : is_some a = is_some b -> a = None -> b = None.
 Proof. intros H ->. destruct b; [discriminate|reflexivity]. Qed.
 
@@ -264,7 +268,7 @@ Proof.
         specialize (DS _ He). specialize (D15 _ He15). specialize (D8 _ He8). specialize (D0 _ He0).
         unfold den in *. cbn [tidn] in *. unfold obind at 1. rewrite DS.
         unfold dec_sig, sig_list. cbn [fields_of nth_o nth]. unfold obind. rewrite D0, D8, D15. reflexivity.
-      * cbn [is_some]. rewrite <- F. unfold sig_list. rewrite !filled_is_some. cbn [existsb]. rewrite I0, I8, I15. reflexivity.
+      * cbn [is_some]. rewrite <- F. unfold sig_list. rewrite !filled_is_some. cbn [existsb]. rewrite ?filled_is_some. cbn [existsb]. rewrite ?is_some_narrow16, I0, I8, I15. reflexivity.
     + cbn [fst snd]. split; [eapply tb_ext_trans; [exact E0|]; eapply tb_ext_trans; eauto|].
       pose proof (filled_false _ F) as HF. unfold sig_list in HF.
       repeat match goal with H : Forall _ (_ :: _) |- _ => inversion H; clear H; subst end.
